@@ -332,6 +332,9 @@ def check(tier: str) -> Result:
     # counter / limit-test premises decided by C11 are necessary for `step_count <= time_limit` on the terminal observation
     from .common import borrow
     n_c11 = borrow(res, "c11", {"C11.R2": "C01.R3b", "C11.R3": "C01.R3b", "C11.R4": "C01.R3b"})
+    # ---- R5c: extent-named parameters of generator helpers receive the extent of their own axis (a transposed grid
+    # has the shape (num_cols, num_rows) while the spec announces (num_rows, num_cols)): borrowed from C07.R1
+    n_c07 = borrow(res, "c07", {"C07.R1": "C01.R5c"}, only_if=lambda ob: "argument for parameter" in ob.construct or "extent" in ob.construct)
     res.analysed = {"environments": len(analyses(tree)), "nested_spec_nodes": n_specs, "observation_leaves": n_leaves,
                     "literal_leaves_compared": n_lit, "sampled_leaves_compared": n_samp, "axis_bound_sites": n_axis, "dtype_categories_compared": n_dt, "leaf_shapes_compared": n_shape}
     if n_specs < 31:
